@@ -23,6 +23,10 @@ def plan(tier):
         fams += [(3, 2, 'FULL', 1), (2, 3, 'FULL_NO3', 2), (3, 1, 'S4', 1), (1, 3, 'FULL', 2)]
     for lo in range(0, 64, 4):
         t.append({'kind': 'medium', 'lo': lo, 'hi': lo + 4})
+    for pat in space.DEEP_PATTERNS:
+        for L in space.DEEP_LENGTHS[tier][:2]:
+            for st in ('fwd', 'rev'):
+                t.append({'kind': 'deep', 'pattern': pat, 'L': L, 'storage': st})
     for n, k, a, split in fams:
         for tk in space.tasks(n, k, ALPHAS[a], split):
             tk.update(alpha=a, pol='all' if (n + k <= 4 and tier == 'thorough') or n + k <= 3 else ('last2' if k >= 3 else 'core'))
@@ -32,7 +36,7 @@ def plan(tier):
 
 def describe(tier):
     return {
-        'rule': 'medium: 12 arithmetic generator circuits (up to ~250 gates) and 44 chains over two inputs (every binary type, mixed types, NOT/IFF; lengths 10..14, 30, 126..128, 140, 300): for every input assignment and every single-output / all-output selection the CNF plus the assignment is satisfiable iff the outputs are True and has exactly one model (decided by the complete solver vsat with model enumeration). E1: every circuit of F(n,k,A) x output policy x selection of output indices (None, [], every '
+        'rule': 'deep: chains of 1200/3000 gates (deeper than the recursion limit), six patterns, both storage orders, through the solver-based medium check; medium: 12 arithmetic generator circuits (up to ~250 gates) and 44 chains over two inputs (every binary type, mixed types, NOT/IFF; lengths 10..14, 30, 126..128, 140, 300): for every input assignment and every single-output / all-output selection the CNF plus the assignment is satisfiable iff the outputs are True and has exactly one model (decided by the complete solver vsat with model enumeration). E1: every circuit of F(n,k,A) x output policy x selection of output indices (None, [], every '
         'index list of length<=2 incl. repeats); all 2^|vars| assignments of the produced CNF enumerated; '
         'is_circuit_satisfiable executed once per admissible solver answer (every model). A case = '
         '(circuit, outputs, selection); distinct = distinct (n, |vars|, |clauses|, |S|) outcomes.',
@@ -273,9 +277,6 @@ def check_medium(acc, name, c):
         case = {'medium': name, 'selection': sel}
         try:
             raw = tseytin_transformation(c, sel).get_raw()
-        except RecursionError:
-            acc.count('tseytin_recursion_limit')
-            continue
         except Exception as e:  # noqa: BLE001
             acc.violation(f'tseytin_transformation/raises-{type(e).__name__}', case, repr(e)[:200])
             continue
@@ -301,6 +302,9 @@ def check_medium(acc, name, c):
 
 
 def run_task(task, acc):
+    if task.get('kind') == 'deep':
+        c, _ = space.deep_chain(task['pattern'], task['L'], task['storage'])
+        return check_medium(acc, f"deep_chain({task['pattern']},{task['L']},{task['storage']})", c)
     if task.get('kind') == 'medium':
         from vmc import boot
 
@@ -317,6 +321,10 @@ def run_task(task, acc):
 def replay(case, acc):
     if 'task' in case:
         return run_task(case['task'], acc)
+    if str(case.get('medium', '')).startswith('deep_chain('):
+        pat, L, st = case['medium'][len('deep_chain('):-1].split(',')
+        c, _ = space.deep_chain(pat, int(L), st)
+        return check_medium(acc, case['medium'], c)
     if 'medium' in case:
         from vmc import boot
 
